@@ -13,6 +13,7 @@ import ZCV.Spec.Url
 import ZCV.Model.Resources
 import ZCV.Model.Logger
 import ZCV.Spec.Logger
+import ZCV.CodecElab
 /-! Line-protocol driver: one request per line, one answer per line. Imports Spec + Model + Gen only. -/
 open ZCV ZCV.SExp ZCV.Codec ZCV.Cfg
 
@@ -189,6 +190,14 @@ def handle (st : DState) : SExp → DState × SExp
         | .ok (top, imps) => .list [.atom "ok", encSec top, ofStrs imps, .str (slStr top imps)]
         | .error f => encFail f)
       | none => .list [.atom "bad-request"])
+  -- (elab tree (dotted…) (comps…) (bases…)) → (ok schema schemaOK?) | (err kind "tag")
+  | .list [.atom "elab", tree, .list dotted, .list comps, .list bases] =>
+    (st, match decNode tree, decElabEnv dotted comps bases with
+      | some t, some env =>
+        (match Elab.elabSchema env 64 t with
+         | .ok sc => .list [.atom "ok", encSchema sc, ofBool (Conf.schemaOK sc)]
+         | .error f => encEFail f)
+      | _, _ => .list [.atom "bad-request", .atom "elab"])
   | .list [.atom "ping"] => (st, .atom "pong")
   | _ => (st, .list [.atom "bad-request"])
 
